@@ -767,6 +767,29 @@ def memory_echo(u):
     return L
 
 
+def more_services(u):
+    """further client methods: read_memory_by_address (the padding rule of C11), request_transfer_exit, clear_dynamically_defined_did"""
+    import symtrans as st
+    request, interpret = client_env(u)
+    from udsoncan import MemoryLocation
+    L = []
+    rd = lambda c: c.read_memory_by_address(MemoryLocation(0x1000, 2, 16, 8))
+    for name, cfg in (('tolerant', {}), ('strict', {'tolerate_zero_padding': False})):
+        L.append(dict(name='fn_read_memory_2_%s' % name, params=[('d', ('seqx', 7, 1))], result='S',
+                      call=interpret(rd, 0x63, lambda r: [('bytes', r.service_data.memory_block)], cfg)))
+    P = [('data', OY)]
+    call = lambda c, data: c.request_transfer_exit(data)
+    L.append(dict(name='fn_request_transfer_exit_request', params=P, result='Y', call=request(call)))
+    L.append(dict(name='fn_request_transfer_exit_interpret', params=P + [('d', ('seq', 3, 1))], result='S',
+                  call=interpret(call, 0x77, lambda r: [('bytes', r.service_data.parameter_records)])))
+    P = [('did', 'Z')]
+    call = lambda c, did: c.clear_dynamically_defined_did(did)
+    obs = lambda r: [r.service_data.subfunction_echo, opt(r.service_data.did_echo)]
+    L.append(dict(name='fn_clear_did_request', params=P, result='Y', call=request(call)))
+    L.append(dict(name='fn_clear_did_interpret', params=P + [('d', ('seq', 4, 1))], result='S', call=interpret(call, 0x6C, obs)))
+    return L
+
+
 def pick(names):
     return lambda u: [sp for sp in helpers(u) if sp['name'] in names]
 
@@ -791,6 +814,7 @@ def files(u):
             ('Fn_DidInt.v', 'udsoncan/client.py (read_data_by_identifier), services/ReadDataByIdentifier.py (interpret_response), common/dids.py',
              lambda u: [sp for sp in did_services(u) if 'interpret' in sp['name']]),
             ('Fn_MemoryEcho.v', 'udsoncan/client.py (write_memory_by_address), services/WriteMemoryByAddress.py, common/MemoryLocation.py', memory_echo),
+            ('Fn_More.v', 'udsoncan/client.py (read_memory_by_address, request_transfer_exit, clear_dynamically_defined_did) and their services', more_services),
             ('Fn_Unlock.v', 'udsoncan/client.py (unlock_security_access, request_seed, send_key; send_request replaced by two scripted replies)', unlock),
             ('Fn_SendRequest.v', 'udsoncan/client.py (send_request, on a symbolic clock)',
              lambda u: [sp for sp in send_request(u) if not any(k in sp['name'] for k in CTX_KINDS)]),
